@@ -333,6 +333,8 @@ func c02BlockCases(thorough bool) []*c02BlockCase {
 			}
 		}
 	}
+	// repeated calls of one child with value in between (c02_repeat.go); appended, so earlier programs keep their forms
+	progs = append(progs, c02RepeatBlockProgs(thorough)...)
 	forms := []c02BlockCase{
 		{Fee: "legacy-2b", Gas: "1M", X: "funded", Slot0: 1},
 		{Fee: "dyn-tip-cap2b", Gas: "60k", Value: 1, X: "absent", Slot0: 0},
